@@ -451,7 +451,10 @@ func init() {
 		"File.AddModuleStmt", "File.AddGoStmt", "File.DropGoStmt", "File.DropToolchainStmt", "File.AddToolchainStmt", "File.AddGodebug", "File.addNewGodebug", "File.DropGodebug",
 		"File.AddRequire", "File.AddNewRequire", "File.DropRequire", "File.AddExclude", "File.DropExclude", "File.AddReplace", "addReplace", "File.DropReplace",
 		"File.AddRetract", "File.DropRetract", "File.SortBlocks", "File.removeDups", "File.AddTool", "File.DropTool", "File.Cleanup",
-		"File.SetRequire", "File.SetRequireSeparateIndirect"}
+		"File.SetRequire", "File.SetRequireSeparateIndirect",
+		"WorkFile.Cleanup", "WorkFile.AddGoStmt", "WorkFile.AddToolchainStmt", "WorkFile.DropGoStmt", "WorkFile.DropToolchainStmt", "WorkFile.AddGodebug", "WorkFile.addNewGodebug",
+		"WorkFile.DropGodebug", "WorkFile.AddUse", "WorkFile.AddNewUse", "WorkFile.SetUse", "WorkFile.DropUse", "WorkFile.AddReplace", "WorkFile.DropReplace",
+		"WorkFile.SortBlocks", "WorkFile.removeDups"}
 	wf := map[string]string{}
 	for _, n := range append(append([]string{"parseDirectiveComment"}, tree[2:]...), ops[3:]...) {
 		wf[n] = "Heap"
@@ -460,11 +463,12 @@ func init() {
 		out: "FnEdit", ns: "Edit", pkgDir: "modfile",
 		imports: []string{"ModVerif.Basic.GoRtUtf8", "ModVerif.Basic.GoRtStrings", "ModVerif.Basic.GoRtHeap", "ModVerif.Basic.GoRtZipIO", "ModVerif.Basic.GoRtEdit", "ModVerif.Generated.FnSemver", "ModVerif.Generated.FnModule"},
 		structNames: []string{"Position", "Comment", "Comments", "CommentBlock", "LParen", "RParen", "Line", "LineBlock", "Expr", "FileSyntax",
-			"VersionInterval", "Module", "Go", "Toolchain", "Godebug", "Require", "Exclude", "Replace", "Retract", "Tool", "File"},
+			"VersionInterval", "Module", "Go", "Toolchain", "Godebug", "Require", "Exclude", "Replace", "Retract", "Tool", "File", "Use", "WorkFile"},
 		sumTypes:  map[string][]string{"Expr": {"CommentBlock", "LParen", "RParen", "Line", "LineBlock", "FileSyntax"}},
 		sumNil:    map[string]bool{"Expr": true},
 		heapTypes: map[string]string{"CommentBlock": "cbs", "Line": "lines", "LineBlock": "blocks", "FileSyntax": "files", "Module": "modules", "Go": "gos", "Toolchain": "toolchains",
-			"Godebug": "godebugs", "Require": "requires", "Exclude": "excludes", "Replace": "replaces", "Retract": "retracts", "Tool": "tools", "File": "mods"},
+			"Godebug": "godebugs", "Require": "requires", "Exclude": "excludes", "Replace": "replaces", "Retract": "retracts", "Tool": "tools", "File": "mods",
+			"Use": "uses", "WorkFile": "works"},
 		interior:     map[string]string{"LParen": "LineBlock.LParen", "RParen": "LineBlock.RParen"},
 		ownerPtr:     map[string]string{"Comments": "Expr"},
 		ownerCalls:   map[string]bool{"Comment": true},
